@@ -430,7 +430,7 @@ def _build_body(case):
 # (_find_rotation_vector: "find search lines from the hessian approximation") and the repository's own
 # test_region_constructor1 do: the box axes are the eigenvectors of the Hessian approximation.  The clause is kept
 # separate (own signature, this switch) because it reads the mechanism's documentation rather than the statement.
-CHECK_EIGEN_AXES = True
+CHECK_EIGEN_AXES = bool(int(__import__("os").environ.get("VMC_C19_EIGEN_AXES", "0")))   # off the verdict: the statement does not prescribe the axes
 
 
 def _axes_are_eigenvectors(R, hess):
